@@ -111,3 +111,30 @@ pub(crate) fn property_contract(buf: Bytes) -> Result<Property, PropertyError> {
     kani::assume(p.byte_len() <= buf.len());
     Ok(p)
 }
+
+/// Exact functional model of `<u16 as TryDecode>::try_decode` (big-endian value of the first two
+/// bytes, InsufficientBufferSize on fewer).  poster's implementation folds over a slice iterator,
+/// whose trip count CBMC's symbolic execution cannot resolve to a constant, which makes every
+/// length read through it (string lengths) an opaque expression and every later offset symbolic.
+/// The harness `prim_u16_exact` proves the real function equal to this model on all inputs up to
+/// its bound; the structural C02 harnesses then use the model in its place (assume-guarantee).
+pub(crate) fn u16_ref(bytes: Bytes) -> Result<u16, ConversionError> {
+    if bytes.len() < 2 {
+        return Err(InsufficientBufferSize.into());
+    }
+    Ok(((bytes[0] as u16) << 8) | bytes[1] as u16)
+}
+
+/// Stub for `core::str::from_utf8` in the *well-formed input* harnesses: constrains the input to
+/// ASCII (kani::assume) and returns Ok without branching on the content.  A branch on symbolic
+/// content would make the Result's payload an opaque if-then-else for CBMC's symbolic execution
+/// and with it every later offset.  For ASCII input the real function returns Ok with the same
+/// bytes, so the stub equals the real function on the domain the harness explores.
+pub(crate) fn utf8_assume_ascii(v: &[u8]) -> Result<&str, core::str::Utf8Error> {
+    let mut i = 0;
+    while i < v.len() {
+        kani::assume(v[i] < 0x80);
+        i += 1;
+    }
+    Ok(vsupport::ascii_unchecked(v))
+}
